@@ -130,6 +130,8 @@ def xproc_case(draw):
 
 def run_xproc(ctx, sub, n_cases, cases=None):
     from hypothesis import given, settings, seed, HealthCheck, Phase
+    if ctx.shard_id != 0:
+        return
     given_cases = cases
     cases = []
 
